@@ -11,6 +11,7 @@ Every function name says what the rule must conclude:
 import time
 import random
 from functools import lru_cache
+from itertools import count
 
 _MEMO = {}
 _REGISTRY = []
@@ -216,3 +217,25 @@ def ok_ext_copied(ins):
     values = list(ins.get_stored_values())
     values.reverse()
     return values + [ins.get_size()]
+
+
+class NameGen:
+    _seq = count(1)
+
+    def __init__(self):
+        self.own = count(1)
+        self.n = 0
+
+    def hist_class_counter(self):
+        return 'tmp%d' % next(self._seq)
+
+    def hist_class_store(self):
+        type(self).total = self.n
+        return self.n
+
+    def ok_instance_counter(self):
+        return 'tmp%d' % next(self.own)
+
+    def ok_instance_number(self):
+        self.n += 1
+        return 'tmp%d' % self.n
